@@ -17,7 +17,7 @@ def prefix_verdict(prefix, snapshot, stack, n_prefix=3):
     for i in range(n_prefix):
         if stack[i] is not prefix[i]:
             return "entry %d below the arguments was replaced" % i
-    if prefix != snapshot:
+    if prefix[:len(snapshot)] != snapshot:
         return "a value below the arguments was mutated"
     return None
 
@@ -37,7 +37,20 @@ def _elem_shard(work):
             continue
         part.nontriv()
         part.outcome((key, len(o.stack)))
-        v = prefix_verdict(o.prefix, o.prefix_snapshot, o.stack)
+        v = prefix_verdict(o.prefix + o.aliases, o.prefix_snapshot, o.stack, n_prefix=3 + len(o.aliases))
+        if v is None and o.alias_specs:
+            # an entry below the arguments that is THE SAME OBJECT as an argument (a not-yet-evaluated duplicate, a variable ...)
+            for i, (sp, obj) in enumerate(zip(o.alias_specs, o.aliases)):
+                try:
+                    with sandbox.watchdog(2.0):
+                        now = sandbox.pyval(obj, limit=64)
+                except BaseException as e:  # noqa
+                    if isinstance(e, KeyboardInterrupt):
+                        raise
+                    now = "reading raises " + type(e).__name__
+                if now != S.denote(sp):
+                    v = "a value below the arguments was mutated through an alias of argument %d" % i
+                    break
         if v and (key in S.WHOLE_STACK or (key in S.RUNS_PROGRAM_TEXT and isinstance(specs[-1], str))):
             # documented whole-stack operations may move/remove prefix entries but must not corrupt their values
             if o.prefix != o.prefix_snapshot:
@@ -71,12 +84,36 @@ def modifier_programs(keys):
 _PROG_CODE = {}
 
 
+def exact_args(m, e, other, tab):
+    """number of stack entries a modified element is entitled to consume"""
+    a = tab.get(e, 1)
+    if a < 0:
+        return None
+    if m == "v":
+        return a if a >= 1 else None
+    if m == "&":
+        return a
+    if m == "~":
+        return 1 if a == 1 else 0
+    if m == "ß":
+        return 1 + a
+    if m in ("ƒ", "ɖ"):
+        return 1
+    if m in ("₌", "₍"):
+        b = tab.get(other, 1)
+        return max(a, b) if a >= 1 and b >= 1 else None
+    if m in ("⁽", "‡", "≬"):
+        return 0
+    return None
+
+
 def _mod_shard(work):
     part = explore.Partial()
     tab = S.table()
     for prog, m, e in work:
         k = max(tab.get(e, 1), 1)
         nargs = k + 1 if m == "ß" else min(k + 1, 3)  # ß pops its condition, then the operand's k arguments
+        ex = exact_args(m, e, "d", tab)
         try:
             code = _PROG_CODE.get(prog)
             if code is None:
@@ -86,7 +123,11 @@ def _mod_shard(work):
             part.skip("modifier program does not transpile/compile (C02's business)")
             continue
         exempt = e in S.WHOLE_STACK or e in S.RUNS_PROGRAM_TEXT
-        for specs in itertools.product(S.V_MOD, repeat=nargs):
+        tuples = list(itertools.product(S.V_MOD, repeat=nargs))
+        if ex is not None and ex != nargs and not exempt:
+            # exactly as many entries as the modified element may consume: one pop too many now hits the prefix
+            tuples += list(itertools.product(S.V_MOD, repeat=ex))
+        for specs in tuples:
             prefix = [[7, [8]], "S", 7]
             snap = [[7, [8]], "S", 7]
             args = [S.make(s) for s in specs]
